@@ -642,6 +642,22 @@ def run(ck: Check):
                     raise
                 except Exception as e:  # noqa: BLE001
                     ck.mismatch("regime probe could not be evaluated", {"kind": kind, "error": repr(e)[:300]})
+        # SitePattern `indices`: every spelling of the class (negative ints esp. -1, negative slice starts / stops / steps, open and
+        # clamped bounds, mixed and repeated lists) must give the value of the alignment REWRITTEN with Python's own column indexing
+        try:
+            for dtn, sub in (("nucleotide", "HKY"), ("aa", "LG")):
+                base_c = G.gen_case(rng, 4, subst=sub, site="constant", rooting="unrooted", nsites=rng.randint(7, 10), special=False)
+                L = min(len(x) for x in base_c["seqs"].values())
+                for sp in G.index_spellings(L, rng):
+                    a = dict(base_c, indices=sp)
+                    b = G.rewritten_without_indices(a)
+                    if b is None:
+                        continue   # an empty selection cannot be compressed (the code raises on it): not a data set
+                    run_.pair("indices-vs-rewritten-columns", a, b, "site-pattern-indices", (dtn, base_c["newick"], sp), lean_a=False, lean_b=False)
+        except InfraError:
+            raise
+        except Exception as e:  # noqa: BLE001
+            ck.mismatch("indices relation could not be evaluated", {"error": repr(e)[:300]})
         # per-symbol sweep over every alphabet
         try:
             symbol_sweep(run_, rng, thorough)
